@@ -28,3 +28,5 @@ def run(prog, chk):
     C.unlink_idiom(prog, chk, "C04.g", ("List", "Map", "MultiMap", "HashMap", "HashSet"))
     # ... and clear() leaves no pointer to a destroyed node behind (list ends, sentinel back pointer, root, buckets)
     C.clear_resets(prog, chk, "C04.h", ("List", "Map", "MultiMap", "HashMap", "HashSet"))
+    # copies re-insert into the destination's own bucket array: its size and the count used for indexing must stay in agreement
+    C.bucket_index(prog, chk, "C04.i", ("HashMap", "HashSet"))
